@@ -26,9 +26,11 @@ def panic_site(msg):
 # ---------------------------------------------------------------------------------------------
 def stun_change_port_counts(payload):
     """Set of plausible numbers of CHANGE-REQUEST attributes with the change-port bit, for a payload that
-    looks like a STUN binding request; empty set if it does not look like one.  Two attribute walks are
+    is framed like a STUN message; empty set if it is not.  Two attribute walks are
     tried (with and without RFC 5389 padding) because the property does not say which one applies."""
-    if len(payload) < 20 or payload[0] != 0 or payload[1] != 1:
+    # deliberately lenient about the message type: *when* the exception applies is C15's business, the mirror and
+    # log monitors only need to know that a port shift can be explained by a change-port attribute
+    if len(payload) < 20:
         return set()
     mlen = struct.unpack("!H", payload[2:4])[0]
     if len(payload) < 20 + mlen:
